@@ -10,6 +10,8 @@ import (
 	"github.com/cockroachdb/redact"
 )
 
+type regHolder struct{ r regInt }
+
 // kind-preserving blanks: print nothing under the standard fmt
 type blankS string
 
@@ -63,6 +65,14 @@ func c05Leaf(k int, su, ss string, registered bool) (interface{}, interface{}) {
 		return safeStr(ss), safeStr(ss)
 	case 8:
 		return redact.Safe(99), redact.Safe(99)
+	case 9:
+		// a registered safe type reached as a reflect.Value that cannot be
+		// interfaced (obtained through an unexported field)
+		v := reflect.ValueOf(regHolder{regInt(31)}).Field(0)
+		if registered {
+			return v, 31
+		}
+		return v, blankI(0)
 	}
 	panic("c05Leaf")
 }
@@ -70,7 +80,8 @@ func c05Leaf(k int, su, ss string, registered bool) (interface{}, interface{}) {
 var c05Formats = []string{"x‹%v y%v|%v", "%5v|%-7v|%05v", "%6v %v %-3v|", "%.1v %v %+v", "%v%v%v"}
 
 // H_c05: exactly the unsafe arguments are enveloped.
-// p = [leaf1, leaf2, leaf3, shape, format, n, registered]
+// p = [leaf1, leaf2, leaf3, shape, format, n, registered, prelude]
+// prelude > 0: an unrelated earlier call (c12History(prelude-1)) runs first
 // shape 0: top-level operands; 1: inside []interface{}; 2: inside struct with interface fields;
 // 3: map[string]interface{}; 4: Sprint
 func H_c05(p []int) {
@@ -84,6 +95,9 @@ func H_c05(p []int) {
 	vAssumeValidUTF8(ssb)
 	if reg {
 		redact.RegisterSafeType(reflect.TypeOf(regInt(0)))
+	}
+	if len(p) > 7 && p[7] > 0 {
+		c12History(p[7]-1, "h")
 	}
 	var ra, fa []interface{}
 	for k := 0; k < 3; k++ {
